@@ -245,6 +245,7 @@ loopPosition]` never meet a depth-0 `LOOP_END`/`LOOP_BREAK` and end at depth 0 (
 structure LoopOK (song : Song) (m : SAMap) (bm : Match) : Prop where
   lt : bm.position < bm.loopPosition
   pos : 0 < bm.loopLength
+  minLen : minLoopScore ≤ bm.loopLength
   fml : ∃ len0, findMatchLength song m bm.trackId bm.position bm.trackId bm.loopPosition true
     = .ok (len0, bm.loopLength)
   valid : ∀ src, song.track? bm.trackId = some src →
